@@ -175,3 +175,28 @@ Proof.
     rewrite IH. ring. }
   rewrite E. field. exact Hne.
 Qed.
+
+(* ---- every sample count ---------------------------------------------------------------------------- *)
+Lemma Qsum_repeat c n : Qsum (repeat c n) == inject_Z (Z.of_nat n) * c.
+Proof.
+  induction n as [|n IH]; [cbn; ring|].
+  cbn [repeat Qsum]. rewrite IH, Nat2Z.inj_succ, <- Z.add_1_r, inject_Z_plus. ring.
+Qed.
+
+Lemma expected_emissivity_any_count areas means n : (1 <= n)%nat ->
+  expected_emissivity areas means n == expected_estimate areas means.
+Proof.
+  intros Hn. unfold expected_emissivity. rewrite Qsum_repeat. field.
+  intro H. assert (E : (Z.of_nat n # 1) == 0) by exact H. unfold Qeq in E. cbn in E. lia.
+Qed.
+
+Lemma stratified_choice_refuted :
+  exists areas means, (forall a, In a areas -> 0 < a) /\
+    ~ stratified_estimate areas means 1 == expected_estimate areas means /\
+    expected_emissivity areas means 1 == expected_estimate areas means.
+Proof.
+  exists [1; 3], [0; 1]. split; [|split].
+  - intros a [Ha|[Ha|[]]]; rewrite <- Ha; reflexivity.
+  - vm_compute. congruence.
+  - vm_compute. reflexivity.
+Qed.
